@@ -29,7 +29,7 @@ import (
 func init() {
 	Registry["C11"] = RunC11
 	Metas["C11"] = Meta{
-		Rule: "episode = 1..5 exchanges on one keep-alive connection of the real http1.HostClient: request built through the client API (method, URL with escaped path/query, header Set/Add, body as bytes / stream of known length / unknown length / LimitedReader / PostArgs form / multipart fields+file, basic-auth in the URL, proxy form) x generated response (fixed length, chunked with seeded chunk sizes and trailers, close-delimited, 204/304/HEAD bodiless, 100 Continue interim) x {buffered, streaming} x MaxResponseBodySize {unset, above, below} x header-name normalisation x seeded fragmentation of the response; parties: client <-> scripted server (request bytes decoded by the strict reader and net/http.ReadRequest) and client <-> real hertz server over the simulated network. Non-trivial: >= 2 exchanges or a response delivered in >= 2 fragments; distinct = abstract signature (request shape, response shape, mode, fragment buckets). Added later: server-initiated Connection: close followed by further exchanges, trailer fields without a Trailer announcement, spelling variants of the framing field names, callers that read only a prefix of a streamed body, requests abandoned with a cancelled context whose pooled objects are reused.",
+		Rule: "episode = 1..5 exchanges on one keep-alive connection of the real http1.HostClient: request built through the client API (method, URL with escaped path/query, header Set/Add, body as bytes / stream of known length / unknown length / LimitedReader / PostArgs form / multipart fields+file, basic-auth in the URL, proxy form) x generated response (fixed length, chunked with seeded chunk sizes and trailers, close-delimited, 204/304/HEAD bodiless, 100 Continue interim) x {buffered, streaming} x MaxResponseBodySize {unset, above, below} x header-name normalisation x seeded fragmentation of the response; parties: client <-> scripted server (request bytes decoded by the strict reader and net/http.ReadRequest) and client <-> real hertz server over the simulated network. Non-trivial: >= 2 exchanges or a response delivered in >= 2 fragments; distinct = abstract signature (request shape, response shape, mode, fragment buckets). Added later: server-initiated Connection: close followed by further exchanges, trailer fields without a Trailer announcement, spelling variants of the framing field names, callers that read only a prefix of a streamed body, requests abandoned with a cancelled context whose pooled objects are reused, fault response-cut: a server that dies inside a response body (that exchange is not judged beyond what was read being a prefix of what was sent; the exchanges after it are).",
 		Real: []string{"http1.HostClient.Do/doNonNilReqResp", "req.Write/writeBodyStream/handleMultipart", "resp.ReadHeaders/ReadRespBody/ReadRespBodyStream/clientRespStream", "ext.ReadBody/readBodyChunked/ReadTrailer/bodyStream", "standard.Conn", "e2e party: route.Engine + http1.Server"},
 		Stub: []string{"TCP + dial (SimConn, SimDialer)", "scripted server (actor) in party (a)", "clock (synctest)"},
 		Assumptions: []string{
@@ -37,7 +37,7 @@ func init() {
 			"multipart bodies are compared after decoding (field/file names and contents); the boundary value is ignored",
 			"the maximum-response-size rule is asserted for buffered mode (error) and, for streaming mode, as 'the call does not fail and the body stream never yields more than the body'",
 		},
-		RequiredProbes: []string{"body-bytes", "body-stream-n", "body-stream-unknown", "body-limited", "body-form", "body-multipart", "resp-fixed", "resp-chunked", "resp-close-delimited", "resp-bodiless", "resp-100-continue", "resp-trailers", "stream-mode", "limit-below", "conn-reused", "e2e", "fragments", "basic-auth", "proxy-form", "resp-set-cookies"},
+		RequiredProbes: []string{"body-bytes", "body-stream-n", "body-stream-unknown", "body-limited", "body-form", "body-multipart", "resp-fixed", "resp-chunked", "resp-close-delimited", "resp-bodiless", "resp-100-continue", "resp-trailers", "stream-mode", "limit-below", "conn-reused", "e2e", "fragments", "basic-auth", "proxy-form", "resp-set-cookies", "response-cut-survived"},
 	}
 }
 
@@ -158,6 +158,7 @@ func RunC11(ep *core.Episode) {
 		interim   bool
 		srvClose  bool
 		respBytes []byte
+		cut       bool // fault: the server dies inside the response body
 	}
 	var exs []*exch
 	served := 0
@@ -212,7 +213,27 @@ func RunC11(ep *core.Episode) {
 				ex.respBytes = b
 			}
 			exs = append(exs, ex)
-			if tp.Chance("abandon", 1, 6) {
+			ab := tp.Choose("abandon", 8) // 5: an abandoned request first; 6, 7: fault - the server dies inside the response body
+			if ab >= 6 && !e2e && !closeDelim && !ex.srvClose && rq.method != "HEAD" && len(ex.resp.Body) >= 2 && ex.resp.Status == 200 {
+				b := ex.respBytes
+				idx := bytes.Index(b, []byte("\r\n\r\n")) + 4
+				if ex.interim {
+					idx += bytes.Index(b[idx:], []byte("\r\n\r\n")) + 4
+				}
+				cut := -1
+				if !ex.resp.Chunked {
+					cut = idx + 1 + tp.Choose("cutat", len(ex.resp.Body)-1)
+				} else if len(ex.resp.ChunkSizes) > 0 && ex.resp.ChunkSizes[0] >= 2 {
+					// inside the data of the first chunk
+					cut = idx + bytes.Index(b[idx:], []byte("\r\n")) + 2 + 1 + tp.Choose("cutat", ex.resp.ChunkSizes[0]-1)
+				}
+				if cut > 0 && cut < len(b) {
+					ex.respBytes = b[:cut]
+					ex.cut, ex.srvClose = true, true
+					ep.Fault("response-cut")
+				}
+			}
+			if ab == 5 {
 				// a request that is prepared and never sent (its context is already cancelled): its objects go
 				// back to the pools and come out again for the real exchange
 				rqa := genC11Req(tp, ep, 100+i, e2e)
@@ -253,6 +274,29 @@ func RunC11(ep *core.Episode) {
 					return
 				}
 				rq.checkHertz(ep, i, echo.Seen[i])
+			} else if ex.cut {
+				// not a conforming response: the outcome of this exchange is not judged (beyond what was read being what was
+				// sent); the exchanges after it are
+				if err == nil && resp.IsBodyStream() {
+					var b []byte
+					if tp.Choose("cutread", 2) == 0 {
+						b, _ = io.ReadAll(resp.BodyStream())
+					} else {
+						b = make([]byte, 1)
+						k, _ := resp.BodyStream().Read(b)
+						b = b[:k]
+					}
+					resp.CloseBodyStream() //nolint:errcheck
+					if !bytes.HasPrefix(ex.resp.Body, b) {
+						ep.Fail("C11.response", "exchange %d (response cut short by the server): the %d bytes read from the body stream are not a prefix of the body sent (first difference at %d)", i, len(b), firstDiff(b, ex.resp.Body))
+						return
+					}
+				}
+				ep.Probe("response-cut-survived")
+				peer = nil
+				protocol.ReleaseRequest(req)
+				protocol.ReleaseResponse(resp)
+				continue
 			} else {
 				checkC11Resp(ep, i, rq, ex.resp, resp, err, streamMode, limit)
 				if closeDelim || ex.srvClose {
